@@ -481,11 +481,33 @@ pub fn to_matrix_holes<W, Ty: EdgeType>(
     }
     if g.n > 0 {
         decoys.push(out.add_node(usize::MAX));
+        if next() % 2 == 0 {
+            decoys.push(out.add_node(usize::MAX));
+        }
+    }
+    // decoy nodes carry edges (a self-loop, and one to a real node) that must vanish with them
+    if let Some(&w0) = g.edges.first().map(|e| &e.2) {
+        for (k, &d) in decoys.iter().enumerate() {
+            if k % 2 == 0 {
+                out.add_edge(d, d, wf(w0));
+            }
+            if !map.is_empty() && k % 3 != 2 {
+                out.add_edge(d, map[k % map.len()], wf(w0));
+            }
+        }
     }
     for &(u, v, w) in &g.edges {
         out.add_edge(map[u], map[v], wf(w));
     }
-    for d in decoys {
+    // removal order: an inner decoy first, then the trailing ones (exercises the id free list), and one
+    // id is reused and freed again
+    if decoys.len() >= 2 {
+        let inner = decoys.remove(0);
+        out.remove_node(inner);
+        let again = out.add_node(usize::MAX);
+        decoys.push(again);
+    }
+    for d in decoys.into_iter().rev() {
         out.remove_node(d);
     }
     (out, map)
